@@ -51,5 +51,11 @@ if [ $need_overlay = 1 ]; then
   export VERIF_INSTR=$mode VERIF_INSTR_REPORT="$ov/report.json"
   exec ./.work/bin/verifcheck-ov "$id" "$tier"
 fi
+if [ "$id" = C19 ] || { [ "$id" = replay ] && [ "${prop:-}" = C19 ]; }; then
+  # C19 is a test binary: the generators under test need a *testing.T
+  (cd harness && go test -c -tags verif -vet=off -o "$VERIF_DIR/.work/bin/c19.test" ./c19test) || { echo "INTERNAL-ERROR: c19 test binary build failed" >&2; exit 2; }
+  if [ "$id" = replay ]; then export VERIF_REPLAY="$tier"; else export VERIF_TIER="$tier"; fi
+  exec ./.work/bin/c19.test -test.run '^TestC19$' -test.timeout 0
+fi
 build verifcheck || { echo "INTERNAL-ERROR: harness build failed" >&2; exit 2; }
 exec ./.work/bin/verifcheck "$id" "$tier"
